@@ -68,6 +68,16 @@ def s4(chk: Check, proj: Project, m) -> None:
             cs = [c for c in ast.walk(g) if isinstance(c, ast.Call) and last_attr(c.func) in ("_get_comp_cls_media", "_get_comp_cls_attr")]
             okc = len(cs) >= 2 and all(c.args and norm(c.args[0]) == cls_p for c in cs)
             chk.ob("S4", "component_media:_setup_lazy_media_resolve:getter-bound-to-own-class", m.loc(g), okc, f"the getter resolves against `{cls_p}`")
+    # sibling agreement between the two lazy getters: both resolve a class's inputs (relative Media paths are rewritten by
+    # _resolve_media) before they read them - otherwise what `.media` memoises depends on whether `.template` came first
+    ga, gm_ = m.func("_get_comp_cls_attr"), m.func("_get_comp_cls_media")
+    res_a = [c for c in calls(ga, "_resolve_media")]
+    res_m = [c for c in calls(gm_, "_resolve_media")]
+    reads = [x for x in ast.walk(gm_) if isinstance(x, ast.Call) and norm(x.func) == "getattr" and len(x.args) >= 2 and isinstance(x.args[1], ast.Constant) and x.args[1].value == "Media"]
+    okm = bool(res_a) and bool(res_m) and bool(reads) and all(c.lineno < reads[0].lineno for c in res_m) and norm(res_m[0].args[0]) == norm(reads[0].args[0])
+    chk.ob("S4", "component_media:_get_comp_cls_media:resolves-before-reading-Media", m.loc(reads[0]) if reads else m.loc(gm_), okm,
+           "the class's inputs are resolved (_resolve_media) before its Media is read, as in _get_comp_cls_attr" if okm else
+           "`.media` reads the class's Media without resolving it first (only `.template`/`.js`/`.css` call _resolve_media): the memoised result holds unresolved relative paths when `.media` is the first access and resolved ones otherwise - the result depends on the access order")
     r = m.func("_resolve_media")
     chk.analysed(fkey(m, r))
     # the "library base class" test must identify the class exactly (import path / identity), not by its bare name
